@@ -117,13 +117,19 @@ func StartWedgeWatch(id, frag string, quiet, confirm time.Duration) {
 				what := fmt.Sprintf("wedged: %d goroutine(s) have been parked on a lock inside %s for more than %v with no case finishing; operations on the shared state never return", len(stuck), frag, quiet+confirm)
 				Violation(id, what, map[string]any{"wedged": true, "running": c, "stacks": stuck})
 				fmt.Printf("--- FAIL: %s violated: %s\n%s\n", id, what, strings.Join(stuck, "\n\n"))
-				evMu.Lock()
-				for _, e := range evAll {
-					e.flush()
-				}
-				evMu.Unlock()
-				os.Exit(1)
+				FlushAndExit(1)
 			}
 		}()
 	})
+}
+
+// FlushAndExit writes the evidence gathered so far and ends the process: for violations after which the process
+// cannot usefully go on (a goroutine of the code under test that spins or is wedged cannot be stopped).
+func FlushAndExit(code int) {
+	evMu.Lock()
+	for _, e := range evAll {
+		e.flush()
+	}
+	evMu.Unlock()
+	os.Exit(code)
 }
